@@ -11,6 +11,26 @@ CHECKS = {
             "Generated configuration x operation histories (thousands per quick run, 150k thorough) executed against the real logger under a virtual clock; the rotated files in semantic order plus the current file must equal the concatenation of all logged lines. Search, not proof: it shows absence of violations only on the explored cases.",
             "trusts: harness name grammar and semantic file order; tmpfs semantics; verif_hooks virtual clock equals the real clock path (cross-checked by the 10% real-clock cases)",
             "DESIGN.md 4/C01"),
+    "C02": ("exploration",
+            "proptest specifications x exhaustive level/target grid against a reference matcher, through the real log macros",
+            "Generated specifications (prefix-related names, level words as names, all levels, optional default/regex, built by builder or parser) and per case the full level x target grid logged through the log macros into a switchboard global logger; written set must equal the reference matcher + regex, log::max_level must admit all accepted records and writer ceilings, Log::enabled must equal the matcher. Search over ~1M grid cells per quick run, no proof.",
+            "trusts the 15-line reference matcher written from the LogSpecification documentation and the regex crate; custom writers are assumed well-behaved (honour their own ceiling)",
+            "DESIGN.md 4/C02"),
+    "C05": ("exploration",
+            "model-based testing of reconfiguration histories (proptest sequences + (active, stack) model)",
+            "Generated sequences of the five reconfiguration operations incl. malformed strings and pops on an empty stack; after every step enabled()/written records/max_level are compared with the model's active specification, and parse results with the reference parser. Search, not proof.",
+            "trusts the reference matcher and the reference parser (src/spec.rs)",
+            "DESIGN.md 4/C05"),
+    "C12": ("exploration",
+            "systematic enumeration of thread interleavings at hook points (controlled scheduler) over proptest-generated spec sets",
+            "2-3 threads each issue one specification change; a scheduler parks them at the three hook points of every update and executes all 20 orderings (2 threads) or all 1680 / a sample (3 threads); final filtering must equal exactly one submitted spec and log::max_level must admit it. Exhaustive at hook granularity for each generated spec set, search over spec sets.",
+            "interleavings below the granularity of the three schedule points are not controlled; blocked threads (lock) are detected by a 10 ms timeout which only changes which interleaving is explored",
+            "DESIGN.md 4/C12"),
+    "C17": ("exploration",
+            "round-trip and differential testing against a reference parser (proptest grammar + mutation + arbitrary Unicode)",
+            "Round trips (Display, TOML, specfile) of generated specs compared on the full decision grid; generated/mutated/arbitrary strings parsed by flexi_logger and by a reference parser written from the documented grammar: Err iff malformed, salvaged spec decides like the well-formed parts. Search (30k quick / 1.5M thorough), no proof.",
+            "trusts the reference parser; inputs the grammar leaves undefined are only checked for no-panic and Err<=>malformed",
+            "DESIGN.md 4/C17"),
     "C08": ("exploration",
             "proptest histories + reference partition model (model-based testing)",
             "Generated size limits, record-length sequences at the limit boundaries, all write modes incl. async, all namings, append restarts; the ordered list of file contents must equal the partition predicted by an independent model (rotate iff size before the write > N, size seeded from the appended file), plus the corollary 'no record appended to a file already above N' checked directly on the files. Search over thousands of cases, no proof.",
